@@ -1,3 +1,59 @@
-import Orda.Model.Api
+/-
+C09 — Transactions are all-or-nothing, locally and on every replica.
+Generic over the datatype: rollback = restore the rollback snapshot and replay; the invariant `RbInv`
+("replaying the rollback operations on the rollback snapshot yields exactly the current state")
+holds in every state reachable without a panic, whatever the prior history.
+-/
+import Orda.Proofs.Replay
 namespace Orda.Props.C09
+open Orda
+
+/-- the rollback invariant holds initially and is kept by calls, transactions and remote deliveries -/
+theorem rollback_invariant_new (typ : DtType) (cuid : String) (create : Bool) :
+    (Replica.new typ cuid create).RbInv := rbInv_new typ cuid create
+theorem rollback_invariant_call (r : Replica) (c : Call) (h : r.RbInv) (hp : (r.call c).2.isPanic = false) :
+    (r.call c).1.RbInv := rbInv_call r c h hp
+theorem rollback_invariant_tx (r : Replica) (tag : String) (calls : List Call) (stop fail : Bool) (h : r.RbInv)
+    (hp : (r.txCalls tag calls stop fail).2.2.isPanic = false) :
+    (r.txCalls tag calls stop fail).1.RbInv := rbInv_txCalls r tag calls stop fail h hp
+theorem rollback_invariant_receive (r : Replica) (ops : List Op) (h : r.RbInv)
+    (hforeign : ∀ o ∈ ops, o.id.cuid ≠ r.opId.cuid) (hp : (r.receive ops).2.isPanic = false) :
+    (r.receive ops).1.RbInv := rbInv_receive r ops h hforeign hp
+
+/-- a transaction whose body returns an error — any body: valid and invalid calls, reads, early
+    return — leaves readable state, pending operations, next identifiers and checkpoint as they were -/
+theorem failed_transaction_restores (r : Replica) (h : r.RbInv) (tag : String) (calls : List Call)
+    (stop fail : Bool) (c : Nat) (herr : (r.txCalls tag calls stop fail).2.2 = .err c) :
+    let r' := (r.txCalls tag calls stop fail).1
+    r'.opId = r.opId ∧ r'.state = r.state ∧ r'.buffer = r.buffer ∧ r'.cp = r.cp :=
+  txCalls_fail_restores r h tag calls stop fail c herr
+
+/-- the rollback itself never fails: a transaction can only end in a panic if one of its own calls did -/
+theorem rollback_never_fails (r : Replica) (h : r.RbInv) (tag : String) (calls : List Call)
+    (stop fail : Bool) (w : String) (hpan : (r.txCalls tag calls stop fail).2.2 = .panic w) :
+    ∃ o ∈ (r.txCalls tag calls stop fail).2.1, o.isPanic = true :=
+  txCalls_panic_only_from_body r h tag calls stop fail w hpan
+
+/-- a committed transaction is queued as ONE contiguous unit that announces its own length -/
+theorem committed_is_one_unit (r : Replica) (tag : String) (calls : List Call) (stop fail : Bool)
+    (hok : (r.txCalls tag calls stop fail).2.2 = .ok ()) :
+    let r' := (r.txCalls tag calls stop fail).1
+    ∃ unit : List Op, r'.buffer = r.buffer ++ unit ∧
+      (unit.head?.map (·.body)) = some (.transaction tag unit.length) ∧
+      unit.map (·.id.seq) = List.range' (r.opId.seq + 1) unit.length ∧
+      r'.opId.seq = r.opId.seq + unit.length :=
+  txCalls_commit_unit r tag calls stop fail hok
+
+/-- remote half: an announced unit is applied completely or, if refused, not at all -/
+theorem refused_unit_unchanged (r : Replica) (unit : List Op) (c : Nat)
+    (h : (r.applyUnit unit).2 = .err c) : (r.applyUnit unit).1 = r :=
+  applyUnit_err_unchanged r unit c h
+
+/-- a header announcing a non-positive length, or more operations than were received, is refused
+    before anything is applied — no loop, no panic -/
+theorem malformed_header_refused (r : Replica) (hd : Op) (rest : List Op) (tag : String) (n : Int)
+    (hb : hd.body = .transaction tag n) (hbad : n < 1 ∨ n.toNat > (hd :: rest).length) :
+    r.receive (hd :: rest) = (r, .err Err.transaction) :=
+  receive_bad_header r hd rest tag n hb hbad
+
 end Orda.Props.C09
